@@ -252,6 +252,33 @@ func c19Replace(r *mc.Report) (states, transitions int) {
 				problems = append(problems, fmt.Sprintf("%s/%s: content is not that of any version (freed memory?): %q", f.Repository, f.FileName, c))
 			}
 		}
+		// every file at most once; without a drop action every repository must be there completely
+		seenFile := map[string]int{}
+		for _, f := range files {
+			seenFile[f.Repository+"/"+f.FileName]++
+		}
+		for k, n := range seenFile {
+			if n > 1 {
+				problems = append(problems, fmt.Sprintf("%s returned %d times in one result", k, n))
+			}
+		}
+		dropped := false
+		for _, as := range schedule {
+			for _, a := range as {
+				if strings.HasPrefix(a, "drop") {
+					dropped = true
+				}
+			}
+		}
+		if api != "List" && !dropped && len(problems) == 0 {
+			for _, repo := range []string{"r1", "r2"} {
+				for i := 0; i < 3; i++ {
+					if seenFile[fmt.Sprintf("%s/f%d.txt", repo, i)] != 1 {
+						problems = append(problems, fmt.Sprintf("%s/f%d.txt missing although its repository was loaded during the whole search", repo, i))
+					}
+				}
+			}
+		}
 		for repo, vs := range perRepo {
 			if len(vs) > 1 {
 				problems = append(problems, fmt.Sprintf("repository %s: files from two versions of its shard in one result", repo))
